@@ -288,6 +288,11 @@ func runCheck(args []string, opts *checkOpts) int {
 	var knownLines []string
 	for _, o := range all {
 		if o.Kind == "vacuity" {
+			if o.Status == "unsat" && o.gen != nil && o.gen.fr != nil && o.gen.fr.c != nil && o.gen.fr.c.Dead[o.Name[strings.LastIndex(o.Name, "#")+1:]] {
+				o.Status = "sat" // declared dead code, and proved unreachable: as expected
+				o.Solver += "/dead"
+				continue
+			}
 			if o.Status == "unsat" {
 				nviol++
 				rp := filepath.Join(replayDir, fileSafe(o.Name)+".json")
